@@ -271,8 +271,9 @@ json.dump(out, sys.stdout)
                                                 'stderr': p.stderr.decode('utf-8', 'replace')[-600:]})
         there = json.loads(p.stdout.decode('utf-8'))
         self.probe('carried-handles')
+        laws = ('hash_alike', 'in_set', 'in_dict') if 'nav' in self.session_oracles else ()
         for (kind, h), a, b in zip(handles, here, there):
-            for law in ('hash_alike', 'in_set', 'in_dict'):
+            for law in laws:
                 if not b[law] or b['found'] != 1:
                     raise self.v('carried-handle', 'an entity object carried into an '
                                  'interpreter with another hash seed is not equal to / does '
